@@ -107,6 +107,7 @@ class World:
             self.close()
 
     def step(self, i, op):
+        i = op.get("id", i)
         k = op["op"]
         if k == "edit":
             self.versions.append(gen.apply_edit(self.versions[self.cur], op["edit"]))
@@ -160,6 +161,29 @@ class World:
         m = self.model(sid)
         return Cones(self.versions[info["ver"]], load_fp=lambda p: m["path_fp"].get(p, "absent"), entry=entry)
 
+    def store_snapshot(self, info):
+        """Blobs and committed paths currently in the store (local: directory walk; memory: asked from the process)."""
+        k = info["store"]["kind"]
+        if k == "local":
+            base = os.path.join(self.root, "store")
+            blobs = set()
+            bdir = os.path.join(base, "int", "blobs")
+            if os.path.isdir(bdir):
+                names = set(os.listdir(bdir))
+                blobs = {n for n in names if not n.endswith(".meta") and ".tmp" not in n}
+            paths = {}
+            ddir = os.path.join(base, info["store"].get("view", "data"))
+            for dp, dns, fns in os.walk(ddir):
+                for n in fns + dns:
+                    p = os.path.join(dp, n)
+                    if os.path.islink(p):
+                        paths["/" + os.path.relpath(p, ddir)] = os.path.basename(os.readlink(p))
+            return {"blobs": sorted(blobs), "paths": sorted(paths.items())}
+        if k == "memory":
+            r = info["proc"].call({"cmd": "memsnap"})
+            return {"blobs": r["blobs"], "paths": [tuple(x) for x in r["paths"]]}
+        return {"blobs": [], "paths": []}
+
     def do_eval(self, i, op):
         info = self.ensure_proc(op.get("proc", 0))
         prog = self.versions[info["ver"]]
@@ -182,14 +206,19 @@ class World:
         cmd = {"cmd": "eval", "entry": entry, "style": style, "options": op.get("opts", {})}
         if op.get("fail"):
             cmd["fail"] = op["fail"]
+        snap_before = self.store_snapshot(info) if op.get("snap") else None
         out = info["proc"].call(cmd)
+        snap_after = self.store_snapshot(info) if op.get("snap") else None
         stages = (op.get("opts") or {}).get("dds_stages")
         full = stages is None
         rec = {"i": i, "op": "eval", "entry": fn, "style": style, "ver": info["ver"], "store": sid, "ref": ref["res"],
                "res": out["res"], "log": out["log"], "reflog": ref["log"], "sigs": _sigs(out["calls"]),
                "stored_keys": [c[1] for c in out["calls"] if c[0] == "store_blob"], "same_exc": out["same_exc"],
                "ctx_clean": out["ctx_clean"], "kept": ref["kept"], "opts": op.get("opts", {}), "fail": op.get("fail"),
-               "inst": info["inst"], "mut": len(info["mutations"])}
+               "inst": info["inst"], "mut": len(info["mutations"]), "snap_before": snap_before, "snap_after": snap_after,
+               "nstore_calls": sum(1 for c in out["calls"] if c[0] == "store_blob"),
+               "nsync_calls": sum(1 for c in out["calls"] if c[0] == "sync_paths"),
+               "kept_fns": sorted(self.cones(info, fn).kept_functions())}
         self.obs.append(rec)
         self.log.append([i, "eval", fn, style, info["ver"], sid, out["res"][:2], out["log"], rec["sigs"]])
         if op.get("fail") or not full:
